@@ -26,6 +26,24 @@ def ttl_dir(k, arglen, vary, timeout=900):
                 bounds="%d directives from {public,max-age,s-maxage,no-store,no-cache,private,x}, argument forms none/=arg/=\"arg\" with %d arbitrary bytes%s; defaultTTL any int64" % (k, arglen, ", symbolic first-letter case and separator space" if vary else ""),
                 covers=["stored", "not stored", "stored with s-maxage", "stored with max-age", "stored with default"], timeout=timeout)
 
+PARSER = ["parser/c05_parser.go"]
+ACC = ["accepted", "rejected"]
+
+def parse_raw(n, timeout=900):
+    return spec("H-C05c-raw[%d]" % n, "./pkg/astparser", PARSER, "VerifC05Parse", [0, n, 0], "every byte string of length %d: parse totality, refs in range, print/parse fixed point (compact and indented)" % n, ACC, timeout=timeout)
+
+PREFIXES = ["{f(a:|)}", "{f(a:[|", "{f(a:{b:|})}", "query($v:|){f}", "query($v:T=|){f}", "{|}", "{...|}", "{f@|}", "type T{f(a:Int|):Int}", "type T|{f:Int}",
+            "directive@d on |", '\"\"\"|\"\"\" scalar S', '\"|\" scalar S', "union U=|", "enum E{|}", "extend | T @d", '{f(a:\"|\")}', '{f(a:\"\"\"|\"\"\")}', "fragment F on T|{f}", "schema{query:|}", "{f(a:1|)}", "query Q|{f}", "input I{a:[Int!]!=|}"]
+
+def parse_prefix(p, n):
+    return spec("H-C05c-pre[%d,%d]" % (p, n), "./pkg/astparser", PARSER, "VerifC05Parse", [3, n, p], "input = %s with | replaced by every string of %d arbitrary bytes" % (PREFIXES[p], n), [], timeout=900)
+
+def parse_gen(defs, budget, timeout=1800):
+    return spec("H-C05c-gen[%d,%d]" % (defs, budget), "./pkg/astparser", PARSER, "VerifC05Parse", [4, defs, budget], "generated documents: %d definitions from 16 templates (type system + executable), at most %d optional parts, names/digits/string bytes symbolic" % (defs, budget), ["accepted non-empty"], timeout=timeout)
+
+def limits(mode, defs, budget, timeout=1800):
+    return spec("H-C05d[%d,%d,%d]" % (mode, defs, budget), "./pkg/astparser", PARSER, "VerifC05Limits", [mode, defs, budget], "generated executable documents (%d definitions, <=%d optional parts%s), MaxDepth in [0,6] and MaxFields in [0,8] symbolic" % (defs, budget, ", keyword-like names" if mode == 6 else ""), ["accepted", "rejected by a limit"], timeout=timeout)
+
 PROPS = {}
 
 PROPS["C05"] = dict(
@@ -38,8 +56,11 @@ PROPS["C05"] = dict(
     quick=[
         spec("H-C05a[3]", "./pkg/lexer", LEX, "VerifC05LexerRead", [3], "all byte strings of length 3 (0x00-0xFF each)", ["eof", "string", "integer", "float", "comment", "ident", "spread"]),
         spec("H-C05a[4]", "./pkg/lexer", LEX, "VerifC05LexerRead", [4], "all byte strings of length 4", ["eof", "string", "integer", "float", "comment", "ident", "spread"]),
-    ],
+        parse_raw(3),
+    ] + [parse_prefix(p, 2) for p in range(23)] + [parse_gen(1, 1), limits(7, 1, 1), limits(6, 1, 1)],
     thorough=[
+        parse_raw(4), parse_gen(1, 2), parse_gen(2, 1, 3000), limits(7, 1, 2, 3000), limits(6, 1, 2, 3000),
+    ] + [parse_prefix(p, 3) for p in range(23)] + [
         spec("H-C05a[4]", "./pkg/lexer", LEX, "VerifC05LexerRead", [4], "all byte strings of length 4", ["eof", "string", "integer", "float", "comment", "ident", "spread"]),
         spec("H-C05a[5]", "./pkg/lexer", LEX, "VerifC05LexerRead", [5], "all byte strings of length 5", ["eof", "string", "integer", "float", "comment", "ident", "spread", "blockstring"], timeout=3000),
     ],
@@ -116,7 +137,7 @@ def main():
     json.dump(manifest, open(os.path.join(HERE, "MANIFEST.json"), "w"), indent=1)
     print("wrote checks.json, MANIFEST.json: claimed", sorted(PROPS), "n/a", [x["property_id"] for x in na])
 
-SOURCE_COMMITS = []
+SOURCE_COMMITS = ["324f3d1", "b295fb9", "754a210", "92e89fe"]
 
 if __name__ == "__main__":
     main()
